@@ -78,9 +78,14 @@ def gen_scenarios(spec, rng, n):
             nact = 2        # two sequential actors = two clients in one process when clients == per_actor
         actors = [{"start": 0.0, "ops": []} for _ in range(nact)]
         nops = rng.randint(1, 10 if deep() else 5) if nact == 1 else nact + rng.randint(0, 6 if deep() else 3)
+        prev = {}
         for j in range(nops):
             fs, s, m, k = rng.choice(cands)
+            if prev.get(j % nact) and rng.random() < 0.3:
+                fs, s, m, k = prev[j % nact]          # the same RPC again (state carried between calls)
+            prev[j % nact] = (fs, s, m, k)
             actors[j % nact]["ops"].append(gen_op(spec, rng, codec, fs, s, m, k, f"o{j}", client))
+        engine.add_in_place_edits(rng, actors)
         sc = {"client": client, "actors": [a for a in actors if a["ops"]], "jitter_default": 0.0}
         if nact > 1 and rng.random() < 0.5:
             sc["clients"] = "per_actor"
